@@ -261,13 +261,18 @@ class Instr(object):
                 return (None, None)
             return (" ".join(toks[1:-1]), toks[-1])
         if op == "load":
-            body = _ALIGN.sub("", rhs)
-            m = re.match(r"load (?:volatile )?(.*?), (.*\*) (\S+)$", body)
-            return (m.group(1).strip(), m.group(3))
+            body = _ALIGN.sub("", rhs)[len("load"):].strip()
+            if body.startswith("volatile "):
+                body = body[9:]
+            parts = split_top(body)
+            return (parts[0].strip(), parts[1].split()[-1])
         if op == "store":
-            body = _ALIGN.sub("", rhs)
-            m = re.match(r"store (?:volatile )?(.*?) (\S+), (.*\*) (\S+)$", body)
-            return (m.group(1).strip(), m.group(2), m.group(4))
+            body = _ALIGN.sub("", rhs)[len("store"):].strip()
+            if body.startswith("volatile "):
+                body = body[9:]
+            parts = split_top(body)
+            ty, val = _strip_attrs(parts[0])
+            return (ty, val, parts[1].split()[-1])
         if op == "getelementptr":
             body = rhs[len("getelementptr"):].strip()
             if body.startswith("inbounds"):
